@@ -7,6 +7,7 @@ package harness
 import (
 	"fmt"
 	"os"
+	"regexp"
 	"strings"
 	"sync"
 	"testing"
@@ -32,7 +33,13 @@ func compileDump(src, name string, mode py.CompileMode) (out string) {
 
 // c18Source draws one source text from the generators of the other properties or the repository
 func c18Source(r *Run, g *G, files []string) (string, string) {
-	switch g.Weighted(3, 3, 2, 2) {
+	switch g.Weighted(3, 3, 2, 2, 3, 2) {
+	case 4:
+		return c18ClassSource(g), "class-cells"
+	case 5:
+		c := &c03Gen{g: g, r: r, kinds: map[string]bool{}, budget: 30}
+		msc := &c03Scope{kind: "module", depth: 1, fnBound: map[string]bool{}, declared: map[string]string{}}
+		return c18Rename(g, c.body(msc)), "scopes-renamed"
 	case 0:
 		c := &c06Gen{g: g, r: r, kinds: map[string]bool{}, nperturb: map[string]bool{}, budget: 40}
 		var toks []string
@@ -60,6 +67,103 @@ func c18Source(r *Run, g *G, files []string) (string, string) {
 		}
 		return string(b), "repo"
 	}
+}
+
+// identifiers whose order relative to each other and to the compiler's implicit names (__class__, .0, __doc__ ...) varies:
+// upper case, leading underscores, digits, non-ASCII
+var c18Idents = []string{"A", "B", "Base", "Tag", "Z", "_A", "_a", "_1", "__x", "__X__", "a", "b", "a1", "a_", "z", "zz", "\u00e9", "\u0394x", "K9", "_", "__", "cls", "self_", "M", "__classy__", "__clas"}
+
+// c18ClassSource: classes nested in functions whose methods use super()/__class__ together with free variables of every spelling
+func c18ClassSource(g *G) string {
+	pick := func() string { return c18Idents[g.N(len(c18Idents))] }
+	var sb strings.Builder
+	nf := g.Int(1, 3)
+	for f := 0; f < nf; f++ {
+		params := map[string]bool{}
+		var plist []string
+		for i, n := 0, g.Int(1, 4); i < n; i++ {
+			p := pick()
+			if !params[p] {
+				params[p] = true
+				plist = append(plist, p)
+			}
+		}
+		fmt.Fprintf(&sb, "def outer%d(%s):\n", f, strings.Join(plist, ", "))
+		locals := append([]string(nil), plist...)
+		for i, n := 0, g.Int(0, 3); i < n; i++ {
+			v := pick()
+			fmt.Fprintf(&sb, "    %s = %d\n", v, i)
+			locals = append(locals, v)
+		}
+		use := func() string {
+			var parts []string
+			for i, n := 0, g.Int(1, 4); i < n; i++ {
+				parts = append(parts, locals[g.N(len(locals))])
+			}
+			if g.Bool() {
+				parts = append(parts, g.Str("__class__", "super()", "super().__init__", "__class__.__name__"))
+			}
+			for i := len(parts) - 1; i > 0; i-- {
+				j := g.N(i + 1)
+				parts[i], parts[j] = parts[j], parts[i]
+			}
+			return "(" + strings.Join(parts, ", ") + ",)"
+		}
+		nc := g.Int(1, 2)
+		for c := 0; c < nc; c++ {
+			fmt.Fprintf(&sb, "    class %s%s:\n", pick(), g.Str("", "(object)", "("+locals[g.N(len(locals))]+")"))
+			if g.Bool() {
+				fmt.Fprintf(&sb, "        %s = %s\n", pick(), locals[g.N(len(locals))])
+			}
+			for m, nm := 0, g.Int(1, 3); m < nm; m++ {
+				fmt.Fprintf(&sb, "        def %s(self, %s=None):\n", g.Str("m", "n", "__init__", pick()), pick())
+				if g.Chance(1, 3) {
+					fmt.Fprintf(&sb, "            def inner():\n                return %s\n", use())
+				}
+				if g.Chance(1, 4) {
+					fmt.Fprintf(&sb, "            g = lambda: %s\n", use())
+				}
+				if g.Chance(1, 4) {
+					fmt.Fprintf(&sb, "            h = [%s for %s in %s]\n", use(), pick(), locals[g.N(len(locals))])
+				}
+				fmt.Fprintf(&sb, "            return %s\n", use())
+			}
+		}
+		fmt.Fprintf(&sb, "    return %s\n", use())
+	}
+	return sb.String()
+}
+
+var c18IdentRe = regexp.MustCompile(`\b[a-z][a-z0-9_]*\b`)
+
+// c18Rename substitutes identifiers of a generated program by hostile spellings (the compilation oracle does not need the program to keep its meaning)
+func c18Rename(g *G, src string) string {
+	keep := map[string]bool{}
+	for _, k := range []string{"def", "class", "return", "if", "else", "elif", "for", "in", "while", "try", "except", "finally", "with", "as", "import", "from", "global", "nonlocal", "lambda", "pass",
+		"break", "continue", "raise", "yield", "del", "assert", "not", "and", "or", "is", "print", "len", "range", "super", "self", "object", "list", "sorted", "isinstance"} {
+		keep[k] = true
+	}
+	mapping := map[string]string{}
+	perm := append([]string(nil), c18Idents...)
+	for i := len(perm) - 1; i > 0; i-- {
+		j := g.N(i + 1)
+		perm[i], perm[j] = perm[j], perm[i]
+	}
+	next := 0
+	return c18IdentRe.ReplaceAllStringFunc(src, func(id string) string {
+		if keep[id] || strings.HasPrefix(id, "u0") {
+			return id
+		}
+		if m, ok := mapping[id]; ok {
+			return m
+		}
+		if next >= len(perm) || len(mapping) >= 8 {
+			return id
+		}
+		mapping[id] = perm[next]
+		next++
+		return mapping[id]
+	})
 }
 
 func c18NT(dump string) bool {
